@@ -48,6 +48,7 @@ struct SentQ {
 	std::vector<Rec> added;
 	int rcode = 0, flags = 0;
 	bool responded = false, dropped = false;
+	int conn_epoch = -1;		// TCP: the client's connection epoch when the message was written
 };
 
 struct Client {
@@ -59,6 +60,7 @@ struct Client {
 	std::string stream;		// everything written to the current connection
 	size_t framed = 0;		// how much of it has been cut into frames the way the receiver will
 	bool stream_dead = false;	// a zero-length frame: the receiver gives up on the connection
+	int conn_epoch = 0;		// bumped whenever the TCP connection ends (either side) or is refused
 };
 
 struct Held { struct evdns_server_request *req; int qi; int rcode; };
@@ -78,6 +80,8 @@ struct Run {
 	uint16_t next_id = 1;
 	bool stalled = false;
 	int callbacks = 0, responses_checked = 0, multi_record = 0;
+	bool limited_clients = false;	// EVDNS_SOPT_TCP_MAX_CLIENTS was lowered: a connection may be turned away
+	bool faulty_io = false;		// I/O faults armed (a datagram may be lost to an injected error)
 };
 static Run *R;
 
@@ -246,10 +250,10 @@ static void client_tcp_connect(int ci) {
 	sockaddr_in sa = vk::addr4(0x7f000001, 5353);
 	vk::EndpointCbs cb;
 	cb.on_connected = [ci](vk::Endpoint *) { R->cl[ci].tcp_open = true; R->cl[ci].tcp_connecting = false; client_tcp_flush(ci); };
-	cb.on_connect_failed = [ci](vk::Endpoint *, int) { R->cl[ci].tcp_connecting = false; R->cl[ci].tcp_pending.clear(); R->cl[ci].pending_cuts.clear(); };
+	cb.on_connect_failed = [ci](vk::Endpoint *, int) { R->cl[ci].tcp_connecting = false; R->cl[ci].tcp_pending.clear(); R->cl[ci].pending_cuts.clear(); R->cl[ci].conn_epoch++; };
 	cb.on_data = [ci](vk::Endpoint *, const std::string &d) { client_tcp_in(ci, d); };
-	cb.on_eof = [ci](vk::Endpoint *e) { Client &c = R->cl[ci]; if (c.tcp == e) { c.tcp_open = false; c.tcp_in.clear(); c.stream.clear(); c.framed = 0; c.stream_dead = false; vk::ep_close(e); } probe("server-closed-tcp"); };
-	cb.on_reset = [ci](vk::Endpoint *e) { Client &c = R->cl[ci]; if (c.tcp == e) { c.tcp_open = false; c.tcp_in.clear(); c.stream.clear(); c.framed = 0; c.stream_dead = false; } };
+	cb.on_eof = [ci](vk::Endpoint *e) { Client &c = R->cl[ci]; if (c.tcp == e) { c.conn_epoch++; c.tcp_open = false; c.tcp_in.clear(); c.stream.clear(); c.framed = 0; c.stream_dead = false; vk::ep_close(e); } probe("server-closed-tcp"); };
+	cb.on_reset = [ci](vk::Endpoint *e) { Client &c = R->cl[ci]; if (c.tcp == e) { c.conn_epoch++; c.tcp_open = false; c.tcp_in.clear(); c.stream.clear(); c.framed = 0; c.stream_dead = false; } };
 	c.tcp_connecting = true;
 	c.tcp_in.clear();
 	c.tcp = vk::ep_connect((sockaddr *)&sa, sizeof sa, cb);
@@ -336,6 +340,9 @@ static void request_cb(struct evdns_server_request *req, void *arg) {
 		Rec r;
 		r.section = (int)((rc.shape >> 3) % 5 == 0 ? k % 3 : (k < n - n / 4 ? 0 : 1 + k % 2));
 		r.name = rec_name((rc.shape & 7) == 7 ? seedk : rc.shape % 7 + 7 * ((seedk / 3) % 5));
+		// pairs of records whose names share a suffix nothing earlier in the message has: the second can only be compressed
+		// against the first, wherever in the message that one happens to lie
+		if ((rc.shape & 7) == 6) r.name = "n" + std::to_string(k) + ".fresh" + std::to_string(k / 2) + "." + std::string(1 + (rc.shape >> 3) % 40, 'p') + ".test";
 		r.cls = 1;
 		r.ttl = (uint32_t)(seedk * 97 % 100000);
 		r.is_name = false;
@@ -381,6 +388,7 @@ static void exec_op(const Op &op) {
 			q.tcp = tcp;
 			q.id = id;
 			q.bytes = msg;
+			q.conn_epoch = c.conn_epoch;
 			unsigned wire_id = msg.size() >= 2 ? (((unsigned char)msg[0] << 8) | (unsigned char)msg[1]) : 0;	// mutations may have changed it
 			ref_query(q);
 			int qi = (int)R->qs.size();
@@ -440,12 +448,13 @@ static void exec_op(const Op &op) {
 		if (op.a[1] & 1) vk::ep_reset(c.tcp); else { vk::ep_shutdown(c.tcp); vk::ep_close(c.tcp); }
 		c.tcp_in.clear();
 		c.stream.clear(); c.framed = 0; c.stream_dead = false;
+		c.conn_epoch++;
 		probe("client-closed-tcp");
 		break;
 	}
 	case OP_PORT_OPTION: {
 		if (R->ports_closed || !R->tport) break;
-		if (op.a[0] & 1) { int r = API(evdns_server_port_set_option(R->tport, EVDNS_SOPT_TCP_MAX_CLIENTS, (size_t)(1 + op.a[1] % 3))); tr("api set max clients -> %d", r); }
+		if (op.a[0] & 1) { R->limited_clients = true; int r = API(evdns_server_port_set_option(R->tport, EVDNS_SOPT_TCP_MAX_CLIENTS, (size_t)(1 + op.a[1] % 3))); tr("api set max clients -> %d", r); }
 		else { int r = API(evdns_server_port_set_option(R->tport, EVDNS_SOPT_TCP_IDLE_TIMEOUT, (size_t)(1 + op.a[1] % 20))); tr("api set idle timeout -> %d", r); }
 		break;
 	}
@@ -486,7 +495,7 @@ static void execute(const Plan &p) {
 		{"f_sendto_eagain", vk::S_SENDTO_EAGAIN}, {"f_recv_eagain", vk::S_RECV_EAGAIN}, {"f_read_short", vk::S_READ_SHORT}, {"f_write_short", vk::S_WRITE_SHORT},
 		{"f_read_eagain", vk::S_READ_EAGAIN}, {"f_write_eagain", vk::S_WRITE_EAGAIN},
 	};
-	for (auto &s : sites) if (p.c(s.k)) vk::set_fault(s.s, (int)p.c(s.k));
+	for (auto &s : sites) if (p.c(s.k)) { vk::set_fault(s.s, (int)p.c(s.k)); run.faulty_io = true; }
 	vk::hooks.stall = []() { if (R && R->base) { R->stalled = true; event_base_loopbreak(R->base); } };
 	vk::hooks.capped = []() { if (R && R->base) event_base_loopbreak(R->base); };
 	struct event_config *cfg = event_config_new();
@@ -534,6 +543,11 @@ static void execute(const Plan &p) {
 		for (size_t i = 0; i < run.qs.size() && !stop(); i++) {
 			SentQ &q = run.qs[i];
 			if (q.callbacks > 1) { V("C37", "C37.callback-twice", "query %zu reached the user callback %d times", i, q.callbacks); break; }
+			// a well-formed standard query written to a connection that is still up (or sent as a datagram to an open port)
+			// reaches the callback
+			bool deliverable = q.decodable && !q.odd && !q.qr && !q.bounds && q.opcode == 0 && !q.questions.empty() && !run.ports_closed && !run.limited_clients && !run.faulty_io;
+			if (deliverable && q.tcp) deliverable = q.conn_epoch == run.cl[q.client].conn_epoch && run.cl[q.client].tcp_open && !run.cl[q.client].stream_dead;
+			if (deliverable && q.callbacks == 0) { V("C37", "C37.query-not-delivered", "query %zu (%s, %zu bytes, %zu question(s)) is a well-formed standard query and its %s is still up, yet the user callback never ran for it", i, q.tcp ? "tcp" : "udp", q.bytes.size(), q.questions.size(), q.tcp ? "connection" : "port"); break; }
 			if ((q.qr || q.bounds) && q.callbacks) { V("C37", "C37.callback-for-invalid", "query %zu (%s) is %s, yet the user callback ran", i, hexs(q.bytes).c_str(), q.qr ? "a response" : "cut short / reaching outside the packet"); break; }
 		}
 	}
@@ -553,6 +567,7 @@ static void execute(const Plan &p) {
 	}
 	if (!stop()) {
 		if (p.prop == "C35") G.nontrivial = run.multi_record > 0;
+		else if (p.prop == "C08") G.nontrivial = mon::locks_enabled && run.callbacks > 0;
 		else G.nontrivial = run.callbacks > 0 || !run.qs.empty();
 	}
 	R = nullptr;
@@ -587,6 +602,7 @@ static void generate(Plan &p, Rng &r) {
 			o.a[0] = r.chance(0.75) ? 0 : r.below(4);
 			o.a[1] = prop == "C35" ? (r.chance(0.2) ? r.range(100, 1200) : r.chance(0.3) ? r.range(10, 60) : r.range(0, 8)) : r.range(0, 6);
 			o.a[2] = r.below(4096);
+			if (prop == "C35" && o.a[1] >= 100 && r.chance(0.5)) o.a[2] = (o.a[2] & ~7) | 6;	// large responses made of suffix-sharing pairs (16 KiB boundary)
 			o.a[3] = r.chance(0.7) ? 0 : r.below(16);
 			o.a[4] = r.below(2);
 		} else if (x < 84) { o.code = OP_LOOP; o.a[0] = r.range(1, 20); o.a[1] = r.chance(0.7); }
